@@ -445,11 +445,31 @@ Both families have the same lock skeleton: EVERY `lock_read` / `lock_tree_write`
 branch lock back if the latter raises; every `unlock` runs
 `try: return self._control_files.unlock() finally: self.branch.unlock()`.
 The branch underneath is the guarded `Branch.stepG` (the code in /repo).  The
-dirstate file lock and the cache flushing of the last unlock are not modelled. -/
+dirstate trees additionally take the dirstate FILE lock (`DS`) inside an inner
+`try/except` that gives the control files back; the cache flushing of the last
+unlock is not modelled. -/
+
+/-- the dirstate FILE lock (`DirState.lock_read / lock_write / unlock`, an OS lock on
+`.bzr/checkout/dirstate`), taken by the first tree lock (`if not state._lock_token`) and
+given back by the last unlock.  `pinned` (environment, never changed by the tree): another
+working-tree object or process holds a READ lock on the file, so `lock_write()` is refused
+with `LockContention` while `lock_read()` is still granted. -/
+structure DS where
+  held : Option Mode := none
+  log : List Ev := []
+  pinned : Bool := false
+  deriving DecidableEq, Repr
+
+def DS.lock (d : DS) (m : Mode) : Except Err DS :=
+  if m = .w && d.pinned then .error .contention
+  else .ok { d with held := some m, log := d.log ++ [if m = .r then .acqR else .acqW] }
+
+def DS.unlock (d : DS) : DS := { d with held := none, log := d.log ++ [.rel] }
 
 structure Tree where
   cf : LF := {}              -- the tree's own `_control_files`
   branch : Branch := {}
+  ds : DS := {}              -- the dirstate file lock
   deriving DecidableEq, Repr
 
 inductive TreeOp where
@@ -470,37 +490,54 @@ namespace Tree
 
 def isLocked (s : Tree) : Bool := s.cf.isLocked
 
-/-- `try: self._control_files.lock_*() except: self.branch.unlock(); raise`
-(the branch has just been locked); a tree lock returns a `LogicalLockResult`
-(no token) -/
-def lockSelf (s : Tree) (r : LF × Res) : Tree × Res :=
+/-- the outer `except BaseException: self.branch.unlock(); raise` -/
+def rollbackBranch (s1 : Tree) (e : Err) : Tree × Res :=
+  match s1.branch.stepG (.branch .unlock) with
+  | (b, .ok _) => ({ s1 with branch := b }, .error e)
+  | (b, .error e') => ({ s1 with branch := b }, .error e')
+
+/-- (the branch has just been locked)
+`try: self._control_files.lock_*();
+      try: state = self.current_dirstate(); if not state._lock_token: state.lock_*()
+      except: self._control_files.unlock(); raise
+ except: self.branch.unlock(); raise`;
+`m` = the mode the dirstate file is locked in; a tree lock returns a
+`LogicalLockResult` (no token) -/
+def lockSelf (s : Tree) (m : Mode) (r : LF × Res) : Tree × Res :=
   match r with
-  | (cf, .ok _) => ({ s with cf := cf }, .ok none)
-  | (cf, .error e) =>
+  | (cf, .ok _) =>
     let s1 := { s with cf := cf }
-    match s1.branch.stepG (.branch .unlock) with
-    | (b, .ok _) => ({ s1 with branch := b }, .error e)
-    | (b, .error e') => ({ s1 with branch := b }, .error e')
+    if s1.ds.held.isSome then (s1, .ok none)
+    else match s1.ds.lock m with
+      | .ok d => ({ s1 with ds := d }, .ok none)
+      | .error e =>
+        -- inner `except`: the control files are given back, then the branch
+        match s1.cf.unlock with
+        | (cf2, .ok _) => rollbackBranch { s1 with cf := cf2 } e
+        | (cf2, .error e') => rollbackBranch { s1 with cf := cf2 } e'
+  | (cf, .error e) => rollbackBranch { s with cf := cf } e
 
 /-- `branchOp` = how the branch is locked first; `self` = how the tree's own
-control files are locked then -/
-def lockVia (s : Tree) (branchOp : Op) (self : LF → LF × Res) : Tree × Res :=
+control files are locked then; `m` = how the dirstate file is locked last -/
+def lockVia (s : Tree) (branchOp : Op) (m : Mode) (self : LF → LF × Res) : Tree × Res :=
   match s.branch.stepG (.branch branchOp) with
   | (b, .error e) => ({ s with branch := b }, .error e)
   | (b, .ok _) =>
     let s1 := { s with branch := b }
-    lockSelf s1 (self s1.cf)
+    lockSelf s1 m (self s1.cf)
 
-def lockRead (s : Tree) : Tree × Res := lockVia s .lockRead LF.lockRead
-def lockTreeWrite (s : Tree) : Tree × Res := lockVia s .lockRead (fun cf => cf.lockWrite none)
-def lockWrite (s : Tree) : Tree × Res := lockVia s (.lockWrite none) (fun cf => cf.lockWrite none)
+def lockRead (s : Tree) : Tree × Res := lockVia s .lockRead .r LF.lockRead
+def lockTreeWrite (s : Tree) : Tree × Res := lockVia s .lockRead .w (fun cf => cf.lockWrite none)
+def lockWrite (s : Tree) : Tree × Res := lockVia s (.lockWrite none) .w (fun cf => cf.lockWrite none)
 
-/-- `unlock` as in /repo: `try: return cf.unlock() finally: branch.unlock()` — an
+/-- `unlock` as in /repo: `if self._control_files._lock_count == 1: ...
+self._dirstate.unlock()`, then `try: return cf.unlock() finally: branch.unlock()` — an
 exception of `branch.unlock()` replaces the pending one -/
 def unlock (s : Tree) : Tree × Res :=
-  match s.cf.unlock with
+  let s0 : Tree := if s.cf.count = 1 && s.ds.held.isSome then { s with ds := s.ds.unlock } else s
+  match s0.cf.unlock with
   | (cf, r) =>
-    let s1 := { s with cf := cf }
+    let s1 := { s0 with cf := cf }
     match s1.branch.stepG (.branch .unlock) with
     | (b, .error e') => ({ s1 with branch := b }, .error e')
     | (b, .ok _) => ({ s1 with branch := b }, r)
@@ -540,7 +577,8 @@ def Branch.init (ext : Bool) (rbB : Bool := false) (rbR : Bool := false) : Branc
 def RepoW.init (ext : Bool) (rb : Bool := false) : RepoW := { repo := Repo.init ext rb }
 def BranchS.init (ext : Bool) (saveFails : Bool) : BranchS := { b := Branch.init ext, saveFails := saveFails }
 /-- `rbT`: the tree's own control-files lock refuses `lock_read()` -/
-def Tree.init (ext : Bool) (rbT : Bool := false) (rbB : Bool := false) (rbR : Bool := false) : Tree :=
-  { cf := LF.init ext rbT, branch := Branch.init ext rbB rbR }
+def Tree.init (ext : Bool) (rbT : Bool := false) (rbB : Bool := false) (rbR : Bool := false)
+    (pin : Bool := false) : Tree :=
+  { cf := LF.init ext rbT, branch := Branch.init ext rbB rbR, ds := { pinned := pin } }
 
 end BreezyVerif.C28
